@@ -298,8 +298,8 @@ UPGRADER:
 				if isNum(c) {
 					start = i
 					p.nextState(stateStatusCode)
+					continue
 				}
-				continue
 			}
 			return ErrInvalidHTTPStatusCode
 		case stateStatusCode:
@@ -332,6 +332,8 @@ UPGRADER:
 			}
 		case stateStatus:
 			switch c {
+			case '\n':
+				return ErrCRExpected
 			case '\r':
 				if p.status == "" {
 					p.status = string(data[start:i])
@@ -410,7 +412,9 @@ UPGRADER:
 			case '\r', '\n':
 				return ErrInvalidCharInHeader
 			default:
-				if !isToken(c) {
+				// after the name only blanks may precede the colon
+				// ("Content-Length x: 3" is not a Content-Length).
+				if !isToken(c) || p.headerKey != "" {
 					return ErrInvalidCharInHeader
 				}
 			}
@@ -631,7 +635,7 @@ UPGRADER:
 				p.nextState(stateBodyTrailerHeaderValueBefore)
 				continue
 			}
-			if !isToken(c) {
+			if !isToken(c) || p.headerKey != "" {
 				return ErrInvalidCharInHeader
 			}
 		case stateBodyTrailerHeaderValueBefore:
@@ -661,6 +665,8 @@ UPGRADER:
 			}
 		case stateBodyTrailerHeaderValue:
 			switch c {
+			case '\n':
+				return ErrInvalidCharInHeader
 			case '\r':
 				if p.headerValue == "" {
 					p.headerValue = string(data[start:i])
@@ -742,6 +748,12 @@ func (p *Parser) parseContentLength() (err error) {
 	if cl := p.header.Get(contentLengthHeader); cl != "" {
 		if p.chunked {
 			return ErrUnexpectedContentLength
+		}
+		// repeated Content-Length headers must agree.
+		for _, v := range p.header[contentLengthHeader][1:] {
+			if strings.Trim(v, " ") != strings.Trim(cl, " ") {
+				return fmt.Errorf("conflicting Content-Length %q and %q: %w", cl, v, ErrInvalidContentLength)
+			}
 		}
 		end := len(cl) - 1
 		for i := end; i >= 0; i-- {
